@@ -1024,6 +1024,7 @@ func (s *SetStartingBlockHeightAction) Execute(services *SwapServices, swap *Swa
 			swap.CancelMessage = err.Error()
 			return Event_ActionFailed
 		}
+		armOpeningTxTimeout(services, swap)
 		return NoOp
 	}
 
@@ -1036,7 +1037,19 @@ func (s *SetStartingBlockHeightAction) Execute(services *SwapServices, swap *Swa
 		return Event_ActionFailed
 	}
 
+	armOpeningTxTimeout(services, swap)
 	return NoOp
+}
+
+// armOpeningTxTimeout bounds the wait for the peer's opening transaction
+// message. Timers live in memory only, so the timer armed during the
+// negotiation is gone after a restart; arming one whenever the waiting state
+// is entered or recovered keeps a silent peer from holding the swap (and its
+// channel) forever.
+func armOpeningTxTimeout(services *SwapServices, swap *SwapData) {
+	toCtx, cancel := context.WithCancel(context.Background())
+	swap.toCancel = cancel
+	services.toService.addNewTimeOut(toCtx, 10*time.Minute, swap.GetId().String())
 }
 
 type NoOpAction struct{}
